@@ -182,6 +182,31 @@ def empty_object_cases(bases):
     return out
 
 
+def equal_twin_cases(bases):
+    """two unit-property sets with EQUAL properties as distinct objects, one of them carrying an index (free in the map's
+    table, occupied, or out of it), referred to by two actions in either order; and the same with locations"""
+    out = []
+    for label, base in bases:
+        vb = SC.SpecView(base)
+        free = [i + 1 for i, c in enumerate(vb.cuwps or []) if not any(c.values())]
+        used = [i + 1 for i, c in enumerate(vb.cuwps or []) if any(c.values())]
+        props = [37, 48, 59, 2600, 3, [False] * 5, [True] * 5 + [False], [True] * 6 + [False], False, 0]
+        for idx in free[:1] + free[-1:] + free[4:5] + used[:1]:
+            for order in ([0, 1], [1, 0], [0, 1, 0]):
+                out.append((f"{label}:equal-cuwp-twins-carry{idx}-order{''.join(map(str, order))}", base,
+                            {"pool": {"locs": [[1, 1, 2, 2, None, None, [True] * 6]], "switches": [],
+                                      "cuwps": [props + [None], props + [idx]]},
+                             "ops": [_trigs(_cuwp_acts(order))]}))
+        lfree = [i + 1 for i, l in enumerate(vb.locs) if not any(l.values()) and i + 1 != 64]
+        for idx in lfree[:1] + lfree[-1:]:
+            for order in ([0, 1], [1, 0]):
+                out.append((f"{label}:equal-loc-twins-carry{idx}-order{''.join(map(str, order))}", base,
+                            {"pool": {"locs": [[5, 6, 70, 80, "twin", None, [True] * 6], [5, 6, 70, 80, "twin", idx, [True] * 6]],
+                                      "switches": [], "cuwps": []},
+                             "ops": [_trigs(_loc_acts(order))]}))
+    return out
+
+
 def run(ck: vlib.Check):
     n = 80 if ck.tier == "quick" else 3000
     ck.rule = ("authored scenarios pushed to the format's limits on valid bases: 17..100 conditions / 65..100 actions, "
@@ -189,7 +214,7 @@ def run(ck: vlib.Check):
                "(0, 64, 65, 256, 1000), 300 new locations / 70 unit-property sets / 300 switches, empty player sets, "
                "empty triggers; plus a deterministic boundary family (last slot of each table pinned, one past it, slot 0; "
                "exactly-full and one-too-many counts of locations / unit-property sets / switches, on fixtures and on an "
-               "empty synthetic map); every output that is produced at all is checked by an independent structural validator "
+               "empty synthetic map; equal unit-property sets / locations as distinct objects, one carrying an index); every output that is produced at all is checked by an independent structural validator "
                "(sizes, 2400-multiples, string offsets, every written id refers to an existing non-empty entry, UPUS "
                "agrees) — the alternative is an exception. Implementation vs extracted pipeline model byte for byte. "
                "Distinct = distinct (base, scenario).")
@@ -227,7 +252,7 @@ def run(ck: vlib.Check):
                          {"kind": "invalid", "label": label, "base_hex": base.hex(), "spec": spec, "problems": problems[:5]}, True)
         else:
             outcomes["valid-output"] += 1
-    for label, base, spec in handbuilt_cases(fixed):
+    for label, base, spec in handbuilt_cases(fixed) + equal_twin_cases(fixed):
         r = A.run_impl(base, spec)
         ck.evaluations += 1
         ck.note_case(label)
